@@ -55,7 +55,7 @@ ASSUMPTIONS = [
     "sampling of scenarios; exhaustive only over close() injection points of each scenario in the thorough tier",
 ]
 MUST_FIRE = {
-    "quick": ["close_phase=before_first_step", "close_phase=backoff_sleep", "close_phase=pending_attempt", "close_phase=connected", "soak_runs"],
+    "quick": ["close_phase=before_first_step", "close_phase=backoff_sleep", "close_phase=pending_attempt", "close_phase=connected", "soak_runs", "outage_over_1024_failures"],
     "thorough": ["close_phase=backoff_sleep", "close_phase=pending_attempt", "close_phase=connected", "close_same_iter=attempt_end", "close_same_iter=loss", "soak_runs", "loss_injected_at_iteration", "close_called_again"],
 }
 
@@ -70,13 +70,15 @@ def _spec(rng):
     if r < 0.5:
         return {"o": "ok", "d": rng.choice(GRID), "life": rng.choice(LIFE), "y": y}
     if r < 0.93:
-        return {"o": "fail", "d": rng.choice(GRID), "y": y, "exc": rng.choice(EXC)}
+        return {"o": "fail", "d": rng.choice(GRID), "y": y, "exc": rng.choice(EXC), "noargs": rng.random() < 0.3}
     return {"o": "hang", "d": 0}
 
 
 def _base(rng, index):
     if index % 40 == 7:
         return _soak(rng)
+    if index % 400 == 23:
+        return _outage(rng)
     script = [_spec(rng) for _ in range(rng.randint(1, 6))]
     tail = rng.choice(
         [
@@ -107,6 +109,25 @@ def _base(rng, index):
     return sc
 
 
+def _outage(rng):
+    """A very long outage: more than 1024 consecutive failed attempts (counters, shifts and powers overflow there)."""
+    return {
+        "kind": "soak",
+        "script": [{"o": "fail", "d": 0, "exc": rng.choice(EXC), "noargs": rng.random() < 0.3}],
+        "cycle": True,
+        "tail": None,
+        "cfg": {"max_delay": rng.choice([1, 2]), "thr": rng.choice([0, 5]), "slp": rng.choice([0, 1])},
+        "stream": None,
+        "close": None,
+        "jump": None,
+        "restart": None,
+        "horizon": 1e9,
+        "max_attempts": None,
+        "max_iter": 2_000_000,
+        "outage": True,
+    }
+
+
 def _soak(rng):
     script = []
     for _ in range(rng.randint(2, 5)):
@@ -135,7 +156,7 @@ def _soak(rng):
 def gen(rng, tier, index):
     base = _base(rng, index)
     if base["kind"] == "soak":
-        base["max_attempts"] = 400 if tier == "quick" else 20000
+        base["max_attempts"] = (1200 if base.get("outage") else 400) if tier == "quick" else (5000 if base.get("outage") else 20000)
         yield base
         return
     dry = manager_rig.ManagerRig(dict(base, stop_on_violation=False)).run()
@@ -189,6 +210,8 @@ def execute(sc):
     nontrivial = False
     if sc.get("kind") == "soak":
         probes["soak_runs"] = 1
+        if sc.get("outage"):
+            probes["outage_over_1024_failures"] = 1 if rig.attempts > 1024 else 0
         probes["soak_attempts"] = rig.attempts
         nontrivial = rig.attempts > 50
     closes = [e for e in rig.events if e[0] == "close_called"]
